@@ -111,45 +111,77 @@ func (i *interpreter) concBytes(v value) []byte {
 // ---- field tables ----------------------------------------------------------------------------
 
 type jsonField struct {
-	idx       int
+	path      []int // field indices from the outer struct (embedded structs are flattened)
 	name      string
 	omitEmpty bool
 	typ       types.Type
 }
 
+// jsonUnsupported ends the path: a shape the bridge does not model must never be turned into an
+// error value the target would go on to handle.
+func jsonUnsupported(what string) {
+	panic(pathAbort{"unsupported", "encoding/json bridge: " + what})
+}
+
 func (i *interpreter) jsonFields(st *types.Struct) ([]jsonField, error) {
 	var out []jsonField
-	for k := 0; k < st.NumFields(); k++ {
-		f := st.Field(k)
-		if f.Embedded() {
-			return nil, fmt.Errorf("gosx: embedded struct fields are not supported by the JSON bridge")
-		}
-		if !f.Exported() {
-			continue
-		}
-		tag := reflect.StructTag(st.Tag(k)).Get("json")
-		if tag == "-" {
-			continue
-		}
-		name := f.Name()
-		omit := false
-		if tag != "" {
-			parts := strings.Split(tag, ",")
-			if parts[0] != "" {
-				name = parts[0]
+	var walk func(st *types.Struct, prefix []int)
+	walk = func(st *types.Struct, prefix []int) {
+		for k := 0; k < st.NumFields(); k++ {
+			f := st.Field(k)
+			tag := reflect.StructTag(st.Tag(k)).Get("json")
+			path := append(append([]int{}, prefix...), k)
+			if f.Embedded() && tag == "" {
+				if es, ok := f.Type().Underlying().(*types.Struct); ok {
+					walk(es, path) // promoted fields
+					continue
+				}
+				jsonUnsupported("embedded non-struct field " + f.Name())
 			}
-			for _, o := range parts[1:] {
-				switch o {
-				case "omitempty":
-					omit = true
-				case "string", "omitzero":
-					return nil, fmt.Errorf("gosx: json tag option %q is not supported by the JSON bridge", o)
+			if !f.Exported() {
+				continue
+			}
+			if tag == "-" {
+				continue
+			}
+			name := f.Name()
+			omit := false
+			if tag != "" {
+				parts := strings.Split(tag, ",")
+				if parts[0] != "" {
+					name = parts[0]
+				}
+				for _, o := range parts[1:] {
+					switch o {
+					case "omitempty":
+						omit = true
+					case "string", "omitzero":
+						jsonUnsupported("json tag option " + o)
+					}
 				}
 			}
+			out = append(out, jsonField{path: path, name: name, omitEmpty: omit, typ: f.Type()})
 		}
-		out = append(out, jsonField{idx: k, name: name, omitEmpty: omit, typ: f.Type()})
 	}
+	walk(st, nil)
 	return out, nil
+}
+
+// fieldAt / setFieldAt follow a flattened field path inside a struct value.
+func fieldAt(sv structure, path []int) value {
+	var cur value = sv
+	for _, k := range path {
+		cur = cur.(structure)[k]
+	}
+	return cur
+}
+
+func setFieldAt(sv structure, path []int, v value) {
+	cur := sv
+	for _, k := range path[:len(path)-1] {
+		cur = cur[k].(structure)
+	}
+	cur[path[len(path)-1]] = v
 }
 
 func isRawMessage(t types.Type) bool {
@@ -251,7 +283,7 @@ func (i *interpreter) jsonTree(t types.Type, v value) (any, error) {
 		return nil, nil
 	}
 	if i.hasJSONMethods(t) {
-		return nil, fmt.Errorf("gosx: %s has custom JSON methods (not supported by the JSON bridge)", t)
+		jsonUnsupported(t.String() + " has custom JSON methods")
 	}
 	if isRawMessage(t) {
 		b := i.concBytes(v)
@@ -277,7 +309,7 @@ func (i *interpreter) jsonTree(t types.Type, v value) (any, error) {
 			case float64:
 				return x, nil
 			}
-			return nil, fmt.Errorf("gosx: symbolic float in JSON")
+			jsonUnsupported("symbolic float")
 		case u.Info()&types.IsUnsigned != 0:
 			return uint64(i.concInt(v)), nil
 		case u.Info()&types.IsInteger != 0:
@@ -304,10 +336,10 @@ func (i *interpreter) jsonTree(t types.Type, v value) (any, error) {
 		sv := v.(structure)
 		var o orderedObj
 		for _, f := range fs {
-			if f.omitEmpty && i.jsonEmpty(f.typ, sv[f.idx]) {
+			if f.omitEmpty && i.jsonEmpty(f.typ, fieldAt(sv, f.path)) {
 				continue
 			}
-			c, err := i.jsonTree(f.typ, sv[f.idx])
+			c, err := i.jsonTree(f.typ, fieldAt(sv, f.path))
 			if err != nil {
 				return nil, err
 			}
@@ -349,7 +381,7 @@ func (i *interpreter) jsonTree(t types.Type, v value) (any, error) {
 			return nil, nil
 		}
 		if b, ok := u.Key().Underlying().(*types.Basic); !ok || b.Info()&types.IsString == 0 {
-			return nil, fmt.Errorf("gosx: map key type %s is not supported by the JSON bridge", u.Key())
+			jsonUnsupported("map key type " + u.Key().String())
 		}
 		var o orderedObj
 		type kv struct {
@@ -465,7 +497,7 @@ func intOfKind(k types.BasicKind, n int64) value {
 // cur after decoding raw into it; the first error is returned, decoding continues past it.
 func (i *interpreter) jsonDecode(t types.Type, raw []byte, cur value) (value, error) {
 	if i.hasJSONMethods(t) {
-		return nil, fmt.Errorf("gosx: %s has custom JSON methods (not supported by the JSON bridge)", t)
+		jsonUnsupported(t.String() + " has custom JSON methods")
 	}
 	kind := jsonKind(raw)
 	typeErr := func() error {
@@ -595,9 +627,9 @@ func (i *interpreter) jsonDecode(t types.Type, raw []byte, cur value) (value, er
 			if f == nil {
 				continue
 			}
-			nv, err := i.jsonDecode(f.typ, obj[k], sv[f.idx])
+			nv, err := i.jsonDecode(f.typ, obj[k], fieldAt(sv, f.path))
 			if nv != nil {
-				sv[f.idx] = nv
+				setFieldAt(sv, f.path, nv)
 			}
 			if err != nil && first == nil {
 				first = err
